@@ -7,6 +7,12 @@
 (*                 -> 1 iff it is still registered, -1 if there is none    *)
 (*   <<"S", sig>>  unregister_signal(sig)    -> 1 iff it removed something *)
 (*   <<"D", sig>>  deliver sig               -> number of actions that ran *)
+(*   <<"H", sig>> / <<"G", sig>>  other code installs a handler (one-shot / *)
+(*                 SA_NODEFER | SA_ONSTACK | full mask)            -> 1      *)
+(*   <<"Q", sig>>  who handles sig now: 1 = the library's dispatcher with    *)
+(*                 SA_RESTART | SA_SIGINFO (and not one-shot) iff the library *)
+(*                 ever took the signal over, else 0 (lib.rs:149-163: the    *)
+(*                 take-over is for the rest of the process)                 *)
 (* Expect(ops) is what an observer must see, from the very first call of a *)
 (* process on (nothing has initialised the registry).                      *)
 (***************************************************************************)
@@ -29,6 +35,9 @@ Run(ops, regs) ==
                          Run(Tail(ops), [i \in 1..Len(regs) |->
                                            IF regs[i].sig = n THEN [regs[i] EXCEPT !.live = FALSE]
                                            ELSE regs[i]])
+           [] k \in {"H", "G"} -> <<<<k, n, 1>>>> \o Run(Tail(ops), regs)
+           [] k = "Q" -> <<<<"Q", n, IF \E i \in 1..Len(regs) : regs[i].sig = n THEN 1 ELSE 0>>>> \o
+                         Run(Tail(ops), regs)
            [] OTHER -> <<<<"D", n, Cardinality(live(n))>>>> \o Run(Tail(ops), regs)
 
 Expect(ops) == Run(ops, << >>)
